@@ -766,7 +766,7 @@ bool TypeAuditor::ViRecursion(Cursor iter) {
 
   { 
     const auto guard = noWarnings.CreateGuard();
-    for (auto retries = typeDeductionDepth; retries > 0; --retries) {
+    for (auto retries = typeDeductionDepth + 1; retries > 0; --retries) { // Note: the last round only verifies the deduced type
       ClearLocalVariables();
       if (!VisitChildDeclaration(iter, 0, std::get<Typification>(iterationValue.value()))) {
         return false;
@@ -777,6 +777,15 @@ bool TypeAuditor::ViRecursion(Cursor iter) {
       }
       if (std::get<Typification>(newIteration.value()) == std::get<Typification>(iterationValue.value())) {
         break;
+      }
+      if (retries == 1) {
+        OnError(
+          SemanticEID::typesNotEqual,
+          iter(iterationIndex).pos.start,
+          newIteration.value(),
+          iterationValue.value()
+        );
+        return false;
       }
       iterationValue = newIteration;
     }
